@@ -57,6 +57,17 @@ pub fn unmocked(fid: u32, addr: Option<usize>, got: Vec<String>) {
     for x in got { l.push(' '); l.push_str(&x); }
     s.lines.push(l);
 }
+/// a call that must panic NAMING the method (`Trait::method`): prints PANIC, or what went wrong
+pub fn named_panic(name: &str, r: Result<(), Box<dyn std::any::Any + Send>>) {
+    let line = match r {
+        Ok(()) => "NO-PANIC".to_string(),
+        Err(p) => {
+            let msg = p.downcast_ref::<String>().cloned().or_else(|| p.downcast_ref::<&str>().map(|s| s.to_string())).unwrap_or_default();
+            if msg.contains(name) { "PANIC".to_string() } else { format!("PANIC-WITHOUT-NAME {msg}") }
+        }
+    };
+    st().lines.push(line);
+}
 /// the caller announces where its mock instance lives (0: passed by value)
 pub fn expect(addr: usize) {
     st().expect_addr = addr;
